@@ -30,10 +30,15 @@ def flat(ops):
     return out
 
 
+SYM = []      # floats behind symbolic value ids 2000+i (set by sem(..., sym=...))
+
+
 def _val(x, table, pv, blocks=None):
-    """x: ring id (int < 1000) | parameter ref (>= 1000) | ('f', float)"""
+    """x: ring id (int < 1000) | parameter ref (1000..1999) | symbolic id (>= 2000) | ('f', float)"""
     if isinstance(x, tuple) and x and x[0] == "f":
         return float(x[1])
+    if isinstance(x, int) and x >= 2000:
+        return float(SYM[x - 2000])
     if isinstance(x, int) and x >= 1000:
         x = pv[x - 1000]
         if isinstance(x, tuple) and x and x[0] == "f":
@@ -53,8 +58,11 @@ def phase_value(x, pv=None):
     return _val(x, lambda i: (i % 8) * math.pi / 4, pv)
 
 
-def sem(c, pv=None, blocks=None):
+def sem(c, pv=None, blocks=None, sym=None):
     """matrix of abstract circuit c (dict nu, anc, hord, ops) in index order users, ancillas, loss lines"""
+    global SYM
+    if sym is not None:
+        SYM = sym
     nu = c["nu"]
     k = len(c["anc"])
     ops = flat(c["ops"])
